@@ -18,7 +18,10 @@ CONSTANTS
   GenBal, DaoTokens, DaoOwner0, AclOwner0,   \* genesis
   AclVariants,  \* set of [owners |-> <<o1..oK>>, extra |-> owner of the non-parameter key "pos/NoSuch" or 0]
   Amts,         \* DAO amounts offered (may include negative and more-than-the-balance)
-  MaxTx
+  MaxTx,
+  GMaxExp,      \* export/import restarts (EndBlock, Commit, export, new chain from the export) offered per history
+  TxFocus       \* "all": every transaction of GTxChoices; "owner": only those that will succeed (sent by the owner the
+                \* current ACL names, well-formed values) - histories in which much changes before a restart
 
 FEE == N + 1
 DAO == N + 4
@@ -29,7 +32,7 @@ Keys == 1..K
 VARIABLE gs
 
 GInit0 ==
-  [ phase |-> "init", ntx |-> 0,
+  [ phase |-> "init", ntx |-> 0, nexp |-> 0,
     bal |-> [a \in Accts |-> 0], supply |-> 0,
     params |-> [k \in Keys |-> 0], acl |-> [k \in Keys |-> 0], aclExtra |-> 0, daoOwner |-> 0,
     lastRes |-> "n/a" ]
@@ -96,6 +99,10 @@ GStep(s, a) ==
   CASE a.a = "InitChain" -> GInitChain(s)
     [] a.a = "BeginBlock" -> [s EXCEPT !.lastRes = "n/a"]
     [] a.a = "Tx" -> GDeliver(s, a)
+    \* the block is ended and committed, the state exported through every module's ExportGenesis and a new
+    \* chain started from the export: every parameter, the ACL, the upgrade plan, the DAO owner and every
+    \* balance are what they were - no governance message was sent
+    [] a.a = "ExportImport" -> [s EXCEPT !.lastRes = "n/a", !.nexp = @ + 1]
 
 T(k, f) == [a |-> "Tx", kind |-> k, from |-> f, to |-> 0, amt |-> 0, pk |-> 0, sfx |-> FALSE, val |-> "", idx |-> 0, id |-> 0,
             aclv |-> [owners |-> << >>, extra |-> 0], fee |-> GovFee]
@@ -116,12 +123,27 @@ GTxChoices ==
   \cup {[T("daotransfer", f) EXCEPT !.to = t, !.amt = x] : f \in Users, t \in Users \cup {DAO, N + 5, N + 6}, x \in Amts}
   \cup {[T("daoburn", f) EXCEPT !.amt = x] : f \in Users, x \in Amts}
 
+Wanted(s, t) ==
+  CASE t.kind = "changeparam" -> /\ ~t.sfx /\ t.pk \in Keys /\ s.acl[t.pk] = t.from /\ t.val \in {"v1", "v2", "id", "upg", "acl"}
+                                 /\ (t.val = "acl" => (t.aclv.extra = 0 /\ \A k \in Keys : t.aclv.owners[k] # 0))
+    [] t.kind = "upgrade" -> s.acl[IUpg] = t.from /\ t.idx # 0
+    [] OTHER -> t.from = s.daoOwner /\ t.amt > 0 /\ t.amt <= s.bal[DAO] /\ t.to # N + 6
+GTxFor(s) == IF TxFocus = "owner" THEN {t \in GTxChoices : Wanted(s, t)} ELSE GTxChoices
+
 GActs(s) ==
   CASE s.phase = "init" -> {[a |-> "InitChain"]}
     [] s.phase = "open" -> {[a |-> "BeginBlock"]}
-    [] s.phase = "block" -> IF s.ntx < MaxTx THEN GTxChoices ELSE {}
+    [] s.phase = "block" -> (IF s.ntx < MaxTx THEN GTxFor(s) ELSE {})
+                            \* (an account at an address of unusual length cannot be read back from an exported
+                            \*  genesis - see Posmint.tla - so the environment does not restart such a chain)
+                            \* (likewise gov InitGenesis ends the PROCESS when the ACL it is given does not list exactly the
+                            \*  registered parameters: a chain whose ACL lost or gained entries cannot be restarted from its
+                            \*  export; observation, not offered)
+                            \cup (IF s.nexp < GMaxExp /\ s.ntx > 0 /\ s.bal[N + 6] = 0 /\ s.aclExtra = 0 /\ (\A k \in Keys : s.acl[k] # 0)
+                                  THEN {[a |-> "ExportImport"]} ELSE {})
 
-GStepP(s, a) == LET t == GStep(s, a) IN IF a.a = "BeginBlock" THEN [t EXCEPT !.phase = "block"] ELSE t
+GStepP(s, a) == LET t == GStep(s, a) IN IF a.a = "BeginBlock" THEN [t EXCEPT !.phase = "block"]
+                                        ELSE IF a.a = "ExportImport" THEN [t EXCEPT !.phase = "open"] ELSE t
 
 GInit == gs = GInit0
 GNext == \E a \in GActs(gs) : gs' = GStepP(gs, a)
